@@ -24,6 +24,8 @@
      kind `pipe` (five ways of assembling the same chain, compared with each other and with the
      chain of machines).
 -/
+import RoProofs.Ops.MoreSpecs
+import RoProofs.Ops.CreateSpecs
 import RoModel.DelegationFacts
 import RoGen.Delegation
 import RoGen.Pipe
@@ -285,6 +287,32 @@ theorem typed_rows_nested {α : Type} (r : PipeRow) (hr : r ∈ RoGen.Pipe.table
 example : applyOrder [1, 3, 2] [(· + 1), (· * 2), (· - 3)] (5 : Int) ≠ nested [(· + 1), (· * 2), (· - 3)] 5 := by decide
 example : applyOrder [1, 2, 3] [(· + 1), (· * 2), (· - 3)] (5 : Int) = 9 := by decide
 
+/-! ### the remaining single-source operators (RoModel/Ops/More.lean) and the creation operators
+    (RoModel/Ops/Create.lean): machine / generator = specification; shapes restated for three of them,
+    the others audited by name below -/
+
+theorem cast {α β : Type} (ok : α → Option β) (err : Err) (mode : SrcMode) (sub : Ctx) (raw : List (Notif α)) :
+    (runOp (castM ok err) mode sub raw).out = Spec.cast ok err (values raw) (ending raw) := cast_spec ok err mode sub raw
+
+theorem ctxWithValue {α : Type} (m : Nat) (mode : SrcMode) (sub : Ctx) (raw : List (Notif α)) :
+    (runOp (ctxWithValueM (α := α) m) mode sub raw).out = Spec.ctxWithValue m (values raw) (ending raw) :=
+  ctxWithValue_spec m mode sub raw
+
+/-- `Range(start, end)` for all integers: the generated script is `List.range` mapped, then completion;
+    delivered as is, nothing refused -/
+theorem range (start endv : Int) (c : Ctx) :
+    (rangeG start endv).delivered c = Spec.rangeScript start endv c ∧ (rangeG start endv).dropped c = [] :=
+  rangeG_delivered start endv c
+
+/-- a creation operator under any machine: the existing run theorem with a synchronous source
+    playing the generated script -/
+theorem create_pipe {σ α β : Type} (g : Gen α) (m : Machine σ α β) (c : Ctx) (hs : m.subscribes = true) :
+    (g.pipe m c).out = gate ((m.onSubscribe m.init c).2 ++ m.emits (m.onSubscribe m.init c).1 (gate ((g c).raw c))) :=
+  Gen.pipe_out g m c hs
+
+example : Spec.rangeValues 4 1 = [4, 3, 2] := by decide
+example : Spec.rangeValues 2 2 = [] := by decide
+
 end Ro.C04d
 
 #print axioms Ro.C04d.delegation_expected
@@ -301,3 +329,49 @@ end Ro.C04d
 #print axioms Ro.C04d.apply_in_order
 #print axioms Ro.C04d.foldl_eq_nested
 #print axioms Ro.C04d.typed_rows_nested
+#print axioms Ro.C04d.cast
+#print axioms Ro.C04d.ctxWithValue
+#print axioms Ro.C04d.range
+#print axioms Ro.C04d.create_pipe
+#print axioms Ro.ctxWithValue_spec
+#print axioms Ro.contextMap_spec
+#print axioms Ro.contextReset_spec
+#print axioms Ro.cast_spec
+#print axioms Ro.tap_spec
+#print axioms Ro.tap_effects
+#print axioms Ro.runOp_st_quiet
+#print axioms Ro.timed_spec
+#print axioms Ro.average_spec
+#print axioms Ro.average_empty_second_emission_dropped
+#print axioms Ro.floatMap_spec
+#print axioms Ro.ofG_script
+#print axioms Ro.fromSliceG_script
+#print axioms Ro.emptyG_script
+#print axioms Ro.throwG_script
+#print axioms Ro.rangeLoop_values
+#print axioms Ro.rangeG_script
+#print axioms Ro.repeatG_script
+#print axioms Ro.startG_ok
+#print axioms Ro.startG_panic
+#print axioms Ro.deferG_ok
+#print axioms Ro.deferG_panic
+#print axioms Ro.deferG_calls
+#print axioms Ro.iifG_true
+#print axioms Ro.iifG_false
+#print axioms Ro.Gen.delivered_dropped
+#print axioms Ro.Gen.delivered_grammar
+#print axioms Ro.ofG_delivered
+#print axioms Ro.fromSliceG_delivered
+#print axioms Ro.emptyG_delivered
+#print axioms Ro.throwG_delivered
+#print axioms Ro.rangeG_delivered
+#print axioms Ro.repeatG_delivered
+#print axioms Ro.startG_ok_delivered
+#print axioms Ro.startG_panic_delivered
+#print axioms Ro.deferG_ok_delivered
+#print axioms Ro.deferG_panic_delivered
+#print axioms Ro.Gen.pipe_out
+#print axioms Ro.Gen.pipe_grammar
+#print axioms Ro.just_take_drops
+#print axioms Ro.Gen.resubscribe
+#print axioms Ro.Gen.resubscribe_calls
